@@ -48,12 +48,32 @@ Fixpoint first_bad (n : N) (s : state) (l : list (op * obs)) : option (N * N * s
       else Some (n, out_code out, s')
   end.
 
-(* the guards of the theorems, evaluated along a history: (sharing_visible, no reingest, target inside, recs inside)
-   at the state BEFORE each step *)
-Fixpoint guards (s : state) (l : list op) : list (bool * bool * bool * bool) :=
+(* the guards of the theorems, evaluated along a history: (sharing_visible, no reingest, target inside, recs inside,
+   put coherent) at the state BEFORE each step *)
+Definition guard_ok (s : state) (x : op) : bool :=
+  sharing_visible s && negb (reingest s x) && target_inside x && recs_inside s && put_coherent x.
+
+Fixpoint guards (s : state) (l : list op) : list (bool * bool * bool * bool * bool) :=
   match l with
   | [] => []
-  | x :: r => (sharing_visible s, negb (reingest s x), target_inside x, recs_inside s) :: guards (fst (step s x)) r
+  | x :: r => (sharing_visible s, negb (reingest s x), target_inside x, recs_inside s, put_coherent x) :: guards (fst (step s x)) r
+  end.
+
+(* cross-check theorem <-> oracle over a WHOLE history: the flag of a step says that the property oracle (evaluated on the
+   implementation's observations alone) failed at that step; every such step must have a violated guard in the model's
+   state before it -- otherwise the theorems plus the correspondence would contradict the oracle *)
+Fixpoint chk_xguard_steps (s : state) (l : list (op * bool)) : bool :=
+  match l with
+  | [] => true
+  | (x, failed) :: r => (negb failed || negb (guard_ok s x)) && chk_xguard_steps (fst (step s x)) r
+  end.
+Definition chk_xguard (c : list (lkey * N) * list (op * bool)) : bool := chk_xguard_steps (init_state (fst c)) (snd c).
+
+(* number of steps of a history at which every guard holds (coverage evidence) *)
+Fixpoint guarded_steps (s : state) (l : list op) : N :=
+  match l with
+  | [] => 0%N
+  | x :: r => ((if guard_ok s x then 1 else 0) + guarded_steps (fst (step s x)) r)%N
   end.
 
 (* template + location cases: fields, extension, observed (kept text, location) or error code *)
